@@ -97,6 +97,9 @@ Definition check_corr_rec (P : params) (k : key) (r : record) (g' : kmap ghost) 
           (if spec_cr r then negb (f_ready f) && negb (f_filled f)
            else f_ready f && Bool.eqb (f_filled f) (negb (N.eqb (spec_ft r) flow_type_inter_node)))
       | Some f0 =>
+          (* a record never touches the retry counter: "retried a bounded number of times"
+             must not be defeated by arrivals *)
+          Z.eqb (f_retries f) (f_retries f0) &&
           if negb (f_ready f0) && f_ready f then
             (* the moment of correlation: filled, and every field merged per data type *)
             f_filled f &&
